@@ -95,7 +95,7 @@ Utf16Seq(s) == IF s = <<>> THEN <<>> ELSE Utf16(Head(s)) \o Utf16Seq(Tail(s))
 (*  keep  accumulate values (decoding) or not (file streaming)             *)
 (*  acc  decoded units of all literal tokens so far (adjacent literals     *)
 (*       concatenate, as in Python and C++)                                *)
-(*  tl   units in the current token (saturating at 2; char literals)       *)
+(*  tl   units in the current character literal (saturating at 2)           *)
 (*  ntok number of completed literal tokens (saturating at 1 unless keep)  *)
 (*  pre  code units seen while keep (prefix check of the decoders)         *)
 (*  h1,h2  rolling hashes of the lexical skeleton; tk pending token kind   *)
@@ -120,7 +120,10 @@ Mix(s, t) == [s EXCEPT !.h1 = (@ * 31 + t) % M1, !.h2 = (@ * 37 + t + 1) % M2, !
 \* a comment token is hashed once per run of comments
 MixComment(s) == IF s.tk = TokComment THEN s ELSE Mix(s, TokComment)
 
-Out(s, u) == [s EXCEPT !.acc = IF s.keep THEN Append(@, u) ELSE @, !.tl = IF @ < 2 THEN @ + 1 ELSE @]
+CharKinds == {"chr", "wchr", "gorune"}
+Out(s, u) == IF s.keep \/ s.sk \in CharKinds
+             THEN [s EXCEPT !.acc = IF s.keep THEN Append(@, u) ELSE @, !.tl = IF s.sk \in CharKinds /\ @ < 2 THEN @ + 1 ELSE @]
+             ELSE s
 RECURSIVE OutSeq(_, _)
 OutSeq(s, us) == IF us = <<>> THEN s ELSE OutSeq(Out(s, Head(us)), Tail(us))
 
@@ -139,7 +142,8 @@ OpenLit(s, mode, q, sk) ==
   [s EXCEPT !.m = mode, !.q = q, !.sk = sk, !.tl = 0, !.tq = 0, !.pfx = <<>>, !.bol = FALSE]
 
 CloseLit(s) ==
-  Mix([s EXCEPT !.m = "code", !.ntok = IF s.keep \/ @ < 1 THEN @ + 1 ELSE @, !.sig = DQ, !.sk = "", !.q = 0, !.tq = 0, !.ret = ""], TokStr)
+  Mix([s EXCEPT !.m = "code", !.ntok = IF s.keep \/ @ < 1 THEN @ + 1 ELSE @, !.sig = DQ, !.sk = "", !.q = 0, !.tq = 0, !.ret = "",
+                !.k = "", !.n = 0, !.v = 0, !.tl = 0], TokStr)
 
 OpenComment(s, mode) == MixComment([s EXCEPT !.m = mode, !.pfx = <<>>])
 
